@@ -1,1 +1,2 @@
 import Proofs.LFU
+import Proofs.Pickle
